@@ -16,13 +16,13 @@ TP = "grin_pool::transaction_pool::TransactionPool::"
 
 def run(c):
     CL = P + "process_block@txhashset::txhashset::extending"
-    c.r1("maturity-after-fork-rewind", CL, P + "rewind_and_apply_fork", sink=P + "verify_coinbase_maturity", via=0)
-    c.r1("maturity-before-utxo", CL, P + "verify_coinbase_maturity", sink=P + "validate_utxo", via=0)
-    c.r1("maturity-before-apply", CL, P + "verify_coinbase_maturity", sink=P + "apply_block_to_txhashset", via=0)
+    c.r1("maturity-after-fork-rewind", CL, P + "rewind_and_apply_fork", sink=P + "verify_coinbase_maturity", via=2)
+    c.r1("maturity-before-utxo", CL, P + "verify_coinbase_maturity", sink=P + "validate_utxo", via=2)
+    c.r1("maturity-before-apply", CL, P + "verify_coinbase_maturity", sink=P + "apply_block_to_txhashset", via=2)
     c.loop("fork-maturity-each", P + "rewind_and_apply_fork", P + "verify_coinbase_maturity", over=r"Vec::new|IntoIterator::into_iter")
-    c.r1("fork-maturity-before-apply", P + "rewind_and_apply_fork", P + "verify_coinbase_maturity", sink=P + "apply_block_to_txhashset", via=0)
+    c.r1("fork-maturity-before-apply", P + "rewind_and_apply_fork", P + "verify_coinbase_maturity", sink=P + "apply_block_to_txhashset", via=2)
     VM = P + "verify_coinbase_maturity"
-    c.r1("pipe-maturity", VM, U + "verify_coinbase_maturity", via=0)
+    c.r1("pipe-maturity", VM, U + "verify_coinbase_maturity", via=2)
     c.r2_arg("pipe-maturity-view", VM, U + "verify_coinbase_maturity", 0, must=["call:Extension::utxo_view", "arg1.extension", "arg1.header_extension"],
              desc="pipe::verify_coinbase_maturity uses the extension pair's own view (fork-aware)")
     c.r2_arg("pipe-maturity-height", VM, U + "verify_coinbase_maturity", 2, must=["arg0.header.height"])
@@ -37,8 +37,8 @@ def run(c):
          desc="coinbase-ness is taken from the stored output's features") if False else \
         c.r2_arg("maturity-coinbase-stored-features", UM + "@iterator::Iterator::filter_map", "grin_core::core::transaction::OutputFeatures::is_coinbase", 0, must=["arg1.0.features"],
                  desc="the coinbase filter tests is_coinbase on the looked-up (stored) output's features")
-    c.r1("maturity-lookup", UM + "@iterator::Iterator::map", U + "validate_input", sink="return", via=0, desc="spent outputs are looked up through validate_input (stored output, fork-local view)")
-    c.r1("cutoff-header-from-extension", U + "get_header_by_height", U + "get_header_hash", via=0,
+    c.r1("maturity-lookup", UM + "@iterator::Iterator::map", U + "validate_input", sink="return", via=2, desc="spent outputs are looked up through validate_input (stored output, fork-local view)")
+    c.r1("cutoff-header-from-extension", U + "get_header_by_height", U + "get_header_hash", via=2,
          desc="the cutoff header is located through the view's header MMR, not a global height index")
     c.r2_arg("cutoff-header-hash-source", U + "get_header_hash", "re:ReadablePMMR::get_data$|ReadablePMMR>::get_data$", 0, must=["arg0.header_pmmr"])
     c.no_reach_cg("cutoff-not-by-global-index", [U + "get_header_by_height", U + "verify_coinbase_maturity"], "re:store::Batch::get_header_by_height$|ChainStore::get_header_by_height$|get_header_hash_by_height$",
@@ -46,37 +46,37 @@ def run(c):
     # --- lock heights
     LH = B + "verify_kernel_lock_heights"
     c.r2("lock-height", LH, ops={"Gt"}, lhs=["re:lock_height$"], rhs=["arg0.header.height"], err="KernelLockHeight", dominate=False)
-    c.r1("block-validate-lock-heights", B + "validate", LH, via=0)
-    c.r1("block-read-lock-heights", B + "validate_read", LH, via=0)
+    c.r1("block-validate-lock-heights", B + "validate", LH, via=2)
+    c.r1("block-read-lock-heights", B + "validate_read", LH, via=2)
     NR = B + "verify_nrd_kernels_for_header_version"
     c.r2("nrd-enabled", NR, cond=r"^global::is_nrd_enabled\(\)$", fail_on=False, err="NRDKernelNotEnabled", bypass=[(r"^Iterator::any\(slice::iter\(Block::kernels\(arg0\)\)", "false")])
     c.r2("nrd-version", NR, ops={"Lt"}, lhs=["arg0.header.version"], err="NRDKernelPreHF3", bypass=[(r"^Iterator::any\(slice::iter\(Block::kernels\(arg0\)\)", "false")])
-    c.r1("block-validate-nrd", B + "validate", NR, via=0)
+    c.r1("block-validate-nrd", B + "validate", NR, via=2)
     # --- NRD relative height
     AK = X + "apply_kernel_rules"
     c.r2("nrd-relative", AK, ops={"Lt"}, lhs=["call:num::saturating_sub", "arg1.height", "call:ListIndex::peek_pos"], rhs=["re:relative_height$"], err="NRDRelativeHeight",
          sink="re:ListIndex::push_pos$", dominate=False)
-    c.r1("nrd-peek-before-push", AK, "re:ListIndex::peek_pos$", sink="re:ListIndex::push_pos$", via=0)
+    c.r1("nrd-peek-before-push", AK, "re:ListIndex::peek_pos$", sink="re:ListIndex::push_pos$", via=2)
     gates = c.false_edges(AK, r"^global::is_nrd_enabled\(\)$")
     if len(gates) != 1:
         c.lost("nrd-single-gate", "R2", AK, "apply_kernel_rules has a single is_nrd_enabled gate", "%d found" % len(gates))
     c.loop("kernel-rules-each", X + "Extension::apply_kernels", X + "apply_kernel_rules", over=r"arg1")
     c.loop("kernel-apply-each", X + "Extension::apply_kernels", X + "Extension::apply_kernel", over=r"arg1")
-    c.r1("apply-block-kernels", X + "Extension::apply_block", X + "Extension::apply_kernels", via=0)
+    c.r1("apply-block-kernels", X + "Extension::apply_block", X + "Extension::apply_kernels", via=2)
     c.r2_arg("apply-kernels-height", X + "Extension::apply_block", X + "Extension::apply_kernels", 2, must=["arg1.header.height"])
-    c.r1("nrd-rewind", X + "Extension::rewind_single_block", "re:linked_list::.*::rewind$|RewindableListIndex::rewind$", sink="ok", via=0,
+    c.r1("nrd-rewind", X + "Extension::rewind_single_block", "re:linked_list::.*::rewind$|RewindableListIndex::rewind$", sink="ok", via=2,
          extra_cuts=c.false_edges(X + "Extension::rewind_single_block", r"^global::is_nrd_enabled\(\)$") +
          [e for e in _non_nrd(c, X + "Extension::rewind_single_block")],
          desc="rewind_single_block rewinds the NRD kernel index for every NRD kernel of the rewound block (when NRD is enabled)") if False else None
     # --- pool path
     AP = TP + "add_to_pool"
     for sink in ("add_to_stempool", "add_to_txpool"):
-        c.r1("pool-lock-height-" + sink, AP, "grin_pool::types::BlockChain::verify_tx_lock_height", sink=TP + sink, via=0)
-        c.r1("pool-maturity-" + sink, AP, "grin_pool::types::BlockChain::verify_coinbase_maturity", sink=TP + sink, via=0)
-        c.r1("pool-kernel-variants-" + sink, AP, TP + "verify_kernel_variants", sink=TP + sink, via=0)
+        c.r1("pool-lock-height-" + sink, AP, "grin_pool::types::BlockChain::verify_tx_lock_height", sink=TP + sink, via=2)
+        c.r1("pool-maturity-" + sink, AP, "grin_pool::types::BlockChain::verify_coinbase_maturity", sink=TP + sink, via=2)
+        c.r1("pool-kernel-variants-" + sink, AP, TP + "verify_kernel_variants", sink=TP + sink, via=2)
     c.r2("chain-tx-lock-height", CH + "verify_tx_lock_height", ops={"Le"}, lhs=["call:Transaction::lock_height"], rhs=["call:Chain::next_block_height"], fail_on=False, err="TxLockHeight")
-    c.r1("chain-maturity-next-height", CH + "verify_coinbase_maturity", CH + "next_block_height", via=0)
-    c.r1("chain-maturity-view", CH + "verify_coinbase_maturity@txhashset::txhashset::utxo_view", U + "verify_coinbase_maturity", via=0)
+    c.r1("chain-maturity-next-height", CH + "verify_coinbase_maturity", CH + "next_block_height", via=2)
+    c.r1("chain-maturity-view", CH + "verify_coinbase_maturity@txhashset::txhashset::utxo_view", U + "verify_coinbase_maturity", via=2)
     c.r2_arg("chain-maturity-height", CH + "verify_coinbase_maturity@txhashset::txhashset::utxo_view", U + "verify_coinbase_maturity", 2, must=["re:^arg0\\."])
     c.r2_ret("next-block-height", CH + "next_block_height", must=["call:Chain::head_header", "op:AddWithOverflow", "const:1"])
 
